@@ -192,3 +192,26 @@ func MeetInt(a, b *Int) *Int {
 
 // GlobalObject returns (creating on demand) the abstract object of a package-level variable.
 func (it *Interp) GlobalObject(g *ssa.Global) *Object { return it.globalObject(g) }
+
+// NarrowInt restricts an integer to [lo,hi] (used for case splits on address classes).
+func NarrowInt(x *Int, lo, hi int64) *Int {
+	r := x.clone()
+	if lo > r.Lo {
+		r.Lo = lo
+	}
+	if hi < r.Hi {
+		r.Hi = hi
+	}
+	return r.normalize()
+}
+
+// WithBit returns x with bit i forced to the given constant (case split on a bit).
+func WithBit(x *Int, i int, one bool) *Int {
+	r := x.clone()
+	if one {
+		r.Bits[i] = bit1
+	} else {
+		r.Bits[i] = bit0
+	}
+	return r.normalize()
+}
